@@ -9,10 +9,15 @@ Property theorems only.  They hold for **every** RNG-access table satisfying the
 implementation `Ops`, every body program, every state and every op history.  `Bridge/C05.lean`
 discharges `tableOk` for the table generated from /repo's current source by `decide`.
 
-libc's `rand` state is *not* restored by a call (the Cython kernels `srand` it): it is excluded from
-`seeded_call_restores` (documented partial); the kernels' seeds are themselves in-scope draws from
-the private stream (`KernelCall.ok`, also discharged on the generated table), so kernel results are
-part of the history-independent output.
+libc's `rand` state is a stream of the model like the others.  It is *not* restored by a call: every
+Cython kernel run does `srand(v)` (with `v` an in-scope draw from the private stream) and then draws.
+What is proved about it (for every body keeping the discipline `LibcOk` = "no `rand()` loop before an
+`srand` of the same call", which `kernelProg_libcOk` derives from the generated `.pyx` event table):
+the seeded output does not depend on the state libc was in (`seeded_call_history_independent`, hence two
+kernels interleaved in one process cannot influence each other: `interleaved_kernel_calls_independent`);
+after a seeded call libc is either untouched or in a state that is a function of (seed, program) alone
+(`libc_after_seeded_call`); a call without a kernel run leaves it where it was
+(`call_without_kernel_keeps_libc`); `libc_not_restored` is the witness that it is, in general, changed.
 -/
 namespace DirectVerif.C05
 open DirectVerif DirectVerif.Rng
@@ -33,26 +38,30 @@ theorem call_eq_tempSeed (t : Table) (ht : tableOk t = true) (O : Ops σ Seed Re
 two states (whatever calls, perturbations of the global generators, or instance creations produced
 them) and on any two instances -/
 theorem seeded_call_history_independent (t : Table) (ht : tableOk t = true) (O : Ops σ Seed Req Val)
-    (prog : Prog Req Val Out) (hp : SitesIn t.length prog) (s : Seed) (i i' : Nat) (st st' : State σ Val) :
+    (prog : Prog Req Val Out) (hp : SitesIn t.length prog) (hl : LibcOk false prog)
+    (s : Seed) (i i' : Nat) (st st' : State σ Val) :
     (call t O prog (some s) i st).1 = (call t O prog (some s) i' st').1 := by
   rw [call_ok t O _ ht prog hp, call_ok t O _ ht prog hp]
-  exact (runIn_seeded t O s prog _ _ _ _ _).1
+  exact (runIn_seeded t O s prog false hl _ _ _ _ _ (by simp)).1
 
 /-- the seeded output is a function of `(seed, program)` alone -/
 theorem seeded_call_out_eq (t : Table) (ht : tableOk t = true) (O : Ops σ Seed Req Val)
-    (prog : Prog Req Val Out) (hp : SitesIn t.length prog) (s : Seed) (i : Nat) (st : State σ Val) :
-    (call t O prog (some s) i st).1 = (runIn t O (some s) prog (O.seedTo s) 0 none).out := by
+    (prog : Prog Req Val Out) (hp : SitesIn t.length prog) (hl : LibcOk false prog)
+    (s : Seed) (i : Nat) (st : State σ Val) (l0 : σ) :
+    (call t O prog (some s) i st).1 = (runIn t O (some s) prog (O.seedTo s) 0 l0).out := by
   rw [call_ok t O _ ht prog hp]
-  exact (runIn_seeded t O s prog _ _ _ _ _).1
+  exact (runIn_seeded t O s prog false hl _ _ _ _ _ (by simp)).1
 
 /-- same generator object or another one: no difference -/
 theorem instance_independent (t : Table) (ht : tableOk t = true) (O : Ops σ Seed Req Val)
-    (prog : Prog Req Val Out) (hp : SitesIn t.length prog) (s : Seed) (i i' : Nat) (st : State σ Val) :
+    (prog : Prog Req Val Out) (hp : SitesIn t.length prog) (hl : LibcOk false prog)
+    (s : Seed) (i i' : Nat) (st : State σ Val) :
     (call t O prog (some s) i st).1 = (call t O prog (some s) i' st).1 :=
-  seeded_call_history_independent t ht O prog hp s i i' st st
+  seeded_call_history_independent t ht O prog hp hl s i i' st st
 
-/-- **a call (seeded or not) leaves every private stream and the global numpy / torch / python
-streams exactly as they were** (libc and the OS entropy counter excluded) -/
+/-- **a call (seeded or not, whatever it does with libc) leaves every private stream and the global
+numpy / torch / python streams exactly as they were** (libc: see `libc_after_seeded_call`; the OS
+entropy counter: see `seeded_call_no_entropy`) -/
 theorem seeded_call_restores (t : Table) (ht : tableOk t = true) (O : Ops σ Seed Req Val)
     (prog : Prog Req Val Out) (hp : SitesIn t.length prog) (seed : Option Seed) (i : Nat) (st : State σ Val) :
     (call t O prog seed i st).2.priv = st.priv ∧ (call t O prog seed i st).2.np = st.np ∧
@@ -62,23 +71,55 @@ theorem seeded_call_restores (t : Table) (ht : tableOk t = true) (O : Ops σ See
 
 /-- a seeded call does not consume OS entropy either -/
 theorem seeded_call_no_entropy (t : Table) (ht : tableOk t = true) (O : Ops σ Seed Req Val)
-    (prog : Prog Req Val Out) (hp : SitesIn t.length prog) (s : Seed) (i : Nat) (st : State σ Val) :
+    (prog : Prog Req Val Out) (hp : SitesIn t.length prog) (hl : LibcOk false prog)
+    (s : Seed) (i : Nat) (st : State σ Val) :
     (call t O prog (some s) i st).2.ent = st.ent := by
   rw [call_ok t O _ ht prog hp, setPriv_self]
-  exact (runIn_seeded t O s prog _ st.ent st.ent _ st.libc).2.2.2
+  exact (runIn_seeded t O s prog false hl _ st.ent st.ent st.libc st.libc (fun _ => rfl)).2.2.2.1
+
+/-! ### libc: exactly what is not restored -/
+
+/-- **libc after a seeded call**: from any two states, on any two instances, either both calls left libc
+exactly where it was (no kernel ran), or both left it in the *same* state — the one reached from
+`srand(v)` of the last kernel run, a function of (seed, program) alone.  So the only thing a seeded call
+does not put back is libc, and what it leaves there is itself reproducible. -/
+theorem libc_after_seeded_call (t : Table) (ht : tableOk t = true) (O : Ops σ Seed Req Val)
+    (prog : Prog Req Val Out) (hp : SitesIn t.length prog) (hl : LibcOk false prog)
+    (s : Seed) (i i' : Nat) (st st' : State σ Val) :
+    ((call t O prog (some s) i st).2.libc = st.libc ∧ (call t O prog (some s) i' st').2.libc = st'.libc) ∨
+    (call t O prog (some s) i st).2.libc = (call t O prog (some s) i' st').2.libc := by
+  rw [call_ok t O _ ht prog hp, call_ok t O _ ht prog hp]
+  exact (runIn_seeded t O s prog false hl _ st.ent st'.ent st.libc st'.libc (by simp)).2.2.2.2
+
+/-- a call (seeded or not) of a generator without a Cython kernel leaves libc where it was -/
+theorem call_without_kernel_keeps_libc (t : Table) (ht : tableOk t = true) (O : Ops σ Seed Req Val)
+    (prog : Prog Req Val Out) (hp : SitesIn t.length prog) (hn : NoLibc prog)
+    (seed : Option Seed) (i : Nat) (st : State σ Val) :
+    (call t O prog seed i st).2.libc = st.libc := by
+  rw [call_ok t O _ ht prog hp]
+  exact runIn_noLibc t O seed prog hn _ _ _
+
+/-- **a kernel run as the `.pyx` files perform it keeps the discipline**: when the generated event list of the
+kernel starts with `srand(seed)` (`pyxSrandFirst`), `kernelProg` seeds libc before its `rand()` loop -/
+theorem kernelProg_libcOk (evs : List String) (h : pyxSrandFirst evs = true) (b : Bool) (v : Val) (r : Req)
+    (k : Val → Prog Req Val Out) (hk : ∀ x, LibcOk true (k x)) :
+    LibcOk b (kernelProg (pyxSrandFirst evs) v r k) := by
+  rw [h]
+  exact .srand (.crand hk)
 
 /-- **lift to arbitrary histories**: after *any* list of ops `h` (seeded calls with any seed,
-unseeded calls, other shapes / generators / `return_acs`, on any instance, new instances, draws from
-or re-seedings of the global generators), from *any* state, the observed seeded call returns what it
+unseeded calls, other shapes / generators / classes / `return_acs`, on any instance, new instances,
+deep copies / pickle round trips / forks of instances, draws from or re-seedings of the global numpy,
+torch, python and libc generators), from *any* state, the observed seeded call returns what it
 returns as the only op from any other state on any other instance -/
 theorem history_independent {G A : Type} (t : Table) (ht : tableOk t = true) (O : Ops σ Seed Req Val)
-    (body : G → A → Prog Req Val Out) (hb : ∀ g a, SitesIn t.length (body g a))
+    (body : G → A → Prog Req Val Out) (hb : ∀ g a, SitesIn t.length (body g a)) (hl : ∀ g a, LibcOk false (body g a))
     (h : List (Op Seed Req G A)) (g : G) (a : A) (s : Seed) (i i' : Nat) (st st' : State σ Val) :
     observe t O body st (h ++ [.call g a i (some s)]) = observe t O body st' [.call g a i' (some s)] := by
   unfold observe
   rw [run_append]
   simp only [run, step, List.getLast?_append, List.getLast?_singleton, Option.some_or, Option.join_some]
-  exact congrArg some (seeded_call_history_independent t ht O _ (hb g a) s i i' _ st')
+  exact congrArg some (seeded_call_history_independent t ht O _ (hb g a) (hl g a) s i i' _ st')
 
 /-- every op that is a generator call leaves the three global streams and all private streams
 untouched, so the globals after a history are those of the non-call ops alone -/
@@ -96,22 +137,114 @@ theorem history_call_keeps_globals {G A : Type} (t : Table) (ht : tableOk t = tr
 volume, in any loading order, in any worker, after any histories, on any generator instance) get the
 same mask -/
 theorem create_sampling_mask_reproducible {G A F : Type} (t : Table) (ht : tableOk t = true) (O : Ops σ Seed Req Val)
-    (body : G → A → Prog Req Val Out) (hb : ∀ g a, SitesIn t.length (body g a)) (seedOf : F → Seed) (fname : F)
+    (body : G → A → Prog Req Val Out) (hb : ∀ g a, SitesIn t.length (body g a)) (hl : ∀ g a, LibcOk false (body g a))
+    (seedOf : F → Seed) (fname : F)
     (h h' : List (Op Seed Req G A)) (g : G) (a : A) (i i' : Nat) (st st' : State σ Val) :
     observe t O body st (h ++ [.call g a i (transformSeed true seedOf fname)]) =
     observe t O body st' (h' ++ [.call g a i' (transformSeed true seedOf fname)]) := by
   simp only [transformSeed, if_true]
-  rw [history_independent t ht O body hb h g a (seedOf fname) i i' st st',
-      history_independent t ht O body hb h' g a (seedOf fname) i' i' st' st']
+  rw [history_independent t ht O body hb hl h g a (seedOf fname) i i' st st',
+      history_independent t ht O body hb hl h' g a (seedOf fname) i' i' st' st']
 
 /-- a call that raises inside the seeded scope is a call whose program stops early: it restores like
 any other (`seeded_call_restores` quantifies over every program), and the next seeded call is
 unaffected -/
 theorem call_after_failed_call {G A : Type} (t : Table) (ht : tableOk t = true) (O : Ops σ Seed Req Val)
-    (body : G → A → Prog Req Val Out) (hb : ∀ g a, SitesIn t.length (body g a))
+    (body : G → A → Prog Req Val Out) (hb : ∀ g a, SitesIn t.length (body g a)) (hl : ∀ g a, LibcOk false (body g a))
     (failing : Op Seed Req G A) (g : G) (a : A) (s : Seed) (i : Nat) (st : State σ Val) :
     observe t O body st [failing, .call g a i (some s)] = observe t O body st [.call g a i (some s)] :=
-  history_independent t ht O body hb [failing] g a s i i st st
+  history_independent t ht O body hb hl [failing] g a s i i st st
+
+/-- **two kernels interleaved in one process cannot influence each other**: a call of any generator `g₁` (say one
+that runs `gaussian_mask_2d`) on any instance, seeded or not, or any perturbation of libc (`srand`, `rand()` by
+anybody: `drawGlobal 3`, `seedGlobal 3`), between the start of the process and the observed seeded call of `g₂`
+(say VD-Poisson) changes nothing in what `g₂` returns, because every kernel run re-seeds before it draws -/
+theorem interleaved_kernel_calls_independent {G A : Type} (t : Table) (ht : tableOk t = true) (O : Ops σ Seed Req Val)
+    (body : G → A → Prog Req Val Out) (hb : ∀ g a, SitesIn t.length (body g a)) (hl : ∀ g a, LibcOk false (body g a))
+    (g₁ g₂ : G) (a₁ a₂ : A) (seed₁ : Option Seed) (s : Seed) (i₁ i₂ : Nat) (r : Req) (sl : Seed) (st st' : State σ Val) :
+    observe t O body st [.call g₁ a₁ i₁ seed₁, .drawGlobal 3 r, .seedGlobal 3 sl, .drawGlobal 3 r, .call g₂ a₂ i₂ (some s)] =
+    observe t O body st' [.call g₂ a₂ i₂ (some s)] :=
+  history_independent t ht O body hb hl [.call g₁ a₁ i₁ seed₁, .drawGlobal 3 r, .seedGlobal 3 sl, .drawGlobal 3 r]
+    g₂ a₂ s i₂ i₂ st st'
+
+/-- **deep copy / pickle / fork of a generator mid-history**: the copy returns, for the same seed, what the
+original returns (and what a fresh object returns in another process) -/
+theorem clone_call_same {G A : Type} (t : Table) (ht : tableOk t = true) (O : Ops σ Seed Req Val)
+    (body : G → A → Prog Req Val Out) (hb : ∀ g a, SitesIn t.length (body g a)) (hl : ∀ g a, LibcOk false (body g a))
+    (h : List (Op Seed Req G A)) (g : G) (a : A) (s : Seed) (i j : Nat) (st st' : State σ Val) :
+    observe t O body st (h ++ [.clone i j, .call g a j (some s)]) = observe t O body st' [.call g a i (some s)] := by
+  have := history_independent t ht O body hb hl (h ++ [.clone i j]) g a s j i st st'
+  simpa [List.append_assoc] using this
+
+/-- an unseeded call on a copy continues from OS entropy, not from the original's stream: the copy's private
+stream is the original's (`clone` copies it) and a call puts it back -/
+theorem clone_copies_stream {G A : Type} (t : Table) (O : Ops σ Seed Req Val) (body : G → A → Prog Req Val Out)
+    (i j : Nat) (st : State σ Val) :
+    (step t O body st (.clone i j)).1.priv j = st.priv i ∧ (step t O body st (.clone i j)).1.np = st.np ∧
+    (step t O body st (.clone i j)).1.libc = st.libc := by
+  simp [step, State.setPriv]
+
+/-! ### the global streams after a whole history -/
+
+/-- is this op a generator call -/
+def isCall {G A : Type} : Op Seed Req G A → Bool
+  | .call .. => true
+  | _ => false
+
+/-- the three named global streams of a state -/
+def globals (st : State σ Val) : σ × σ × σ := (st.np, st.torch, st.py)
+
+theorem step_noncall_globals {G A : Type} (t : Table) (O : Ops σ Seed Req Val) (body : G → A → Prog Req Val Out)
+    (op : Op Seed Req G A) (hop : isCall op = false) (st st' : State σ Val) (h : globals st = globals st') :
+    globals (step t O body st op).1 = globals (step t O body st' op).1 := by
+  simp only [globals, Prod.mk.injEq] at h
+  obtain ⟨h1, h2, h3⟩ := h
+  cases op with
+  | call g a i seed => simp [isCall] at hop
+  | newInst i => simp [step, globals, State.setPriv, h1, h2, h3]
+  | drawGlobal w r =>
+    by_cases w0 : w = 0
+    · simp [step, globals, w0, h1, h2, h3]
+    · by_cases w1 : w = 1
+      · simp [step, globals, w1, h1, h2, h3]
+      · by_cases w2 : w = 2
+        · simp [step, globals, w2, h1, h2, h3]
+        · simp [step, globals, w0, w1, w2, h1, h2, h3]
+  | seedGlobal w s =>
+    by_cases w0 : w = 0
+    · simp [step, globals, w0, h2, h3]
+    · by_cases w1 : w = 1
+      · simp [step, globals, w1, h1, h3]
+      · by_cases w2 : w = 2
+        · simp [step, globals, w2, h1, h2]
+        · simp [step, globals, w0, w1, w2, h1, h2, h3]
+  | clone s d => simp [step, globals, State.setPriv, h1, h2, h3]
+
+/-- **the global numpy / torch / python streams after any history are those produced by the non-generator ops
+alone**: deleting every generator call (seeded or not, of any generator, on any instance, raising or not) from a
+history changes nothing in the three global streams, whatever the states of private streams, libc and entropy -/
+theorem history_globals_eq_noncall {G A : Type} (t : Table) (ht : tableOk t = true) (O : Ops σ Seed Req Val)
+    (body : G → A → Prog Req Val Out) (hb : ∀ g a, SitesIn t.length (body g a)) :
+    ∀ (h : List (Op Seed Req G A)) (st st' : State σ Val), globals st = globals st' →
+      globals (run t O body st h).1 = globals (run t O body st' (h.filter fun op => !isCall op)).1 := by
+  intro h
+  induction h with
+  | nil => intro st st' hg; simpa [run] using hg
+  | cons op h ih =>
+    intro st st' hg
+    by_cases hc : isCall op = true
+    · have hkeep : globals (step t O body st op).1 = globals st := by
+        cases op with
+        | call g a i seed =>
+          have := seeded_call_restores t ht O (body g a) (hb g a) seed i st
+          simp only [globals, step]
+          rw [this.2.1, this.2.2.1, this.2.2.2]
+        | _ => simp [isCall] at hc
+      simp only [run, List.filter_cons, hc, Bool.not_true, Bool.false_eq_true, if_false]
+      exact ih _ _ (hkeep.trans hg)
+    · have hc' : isCall op = false := by simpa using hc
+      simp only [run, List.filter_cons, hc', Bool.not_false, if_true]
+      exact ih _ _ (step_noncall_globals t O body op hc' st st' hg)
 
 /-! ### ACS branch and mask branch -/
 
@@ -121,12 +254,21 @@ theorem sitesIn_bind {X : Type} {n : Nat} {p : Prog Req Val X} {f : X → Prog R
   | ret o => exact hf o
   | draw hs _ ih => exact .draw hs ih
   | reseed hs _ ih => exact .reseed hs ih
-  | kernel _ ih => exact .kernel ih
+  | srand _ ih => exact .srand ih
+  | crand _ ih => exact .crand ih
+
+/-- leading draws that do not touch libc followed by a disciplined rest are disciplined -/
+theorem libcOk_bind {X : Type} {b : Bool} {p : Prog Req Val X} {f : X → Prog Req Val Out}
+    (hp : NoLibc p) (hf : ∀ x, LibcOk b (f x)) : LibcOk b (p.bind f) := by
+  induction hp with
+  | ret o => exact hf o
+  | draw _ ih => exact .draw ih
+  | reseed _ ih => exact .reseed ih
 
 /-- running `p >>= f` is running `p`, then `f` on its result from where `p` left the streams -/
 theorem runIn_bind {X : Type} (t : Table) (O : Ops σ Seed Req Val) (seed : Option Seed)
     (f : X → Prog Req Val Out) :
-    ∀ (p : Prog Req Val X) (cur : σ) (e : Nat) (l : Option Val),
+    ∀ (p : Prog Req Val X) (cur : σ) (e : Nat) (l : σ),
       runIn t O seed (p.bind f) cur e l =
         { runIn t O seed (f (runIn t O seed p cur e l).out) (runIn t O seed p cur e l).cur
             (runIn t O seed p cur e l).ent (runIn t O seed p cur e l).libc with
@@ -146,14 +288,15 @@ theorem runIn_bind {X : Type} (t : Table) (O : Ops σ Seed Req Val) (seed : Opti
     by_cases h : (lookup t site).src = .priv
     · rw [Prog.bind, runIn, runIn]; simp only [h, if_true]; rw [ih]
     · rw [Prog.bind, runIn, runIn]; simp only [h, if_false]; rw [ih]
-  | kernel v k ih => intro cur e l; rw [Prog.bind, runIn, runIn, ih]
+  | srand v k ih => intro cur e l; rw [Prog.bind, runIn, runIn, ih]
+  | crand r k ih => intro cur e l; rw [Prog.bind, runIn, runIn, ih]
 
 /-- **the `return_acs` branch and the mask branch perform the same leading draws**: with the same
 seed the ACS call's request sequence is a prefix of the mask call's, both see the same leading
 values `x`, the ACS output is `acsOf x` and the mask is produced by `rest x` (which ORs `acsOf x`
 in) — so the returned ACS is the ACS of the returned mask -/
 theorem acs_and_mask_share_first_draws {X : Type} (t : Table) (O : Ops σ Seed Req Val) (seed : Option Seed)
-    (lead : Prog Req Val X) (acsOf : X → Out) (rest : X → Prog Req Val Out) (cur : σ) (e : Nat) (l : Option Val) :
+    (lead : Prog Req Val X) (acsOf : X → Out) (rest : X → Prog Req Val Out) (cur : σ) (e : Nat) (l : σ) :
     let L := runIn t O seed lead cur e l
     (runIn t O seed (withAcs lead acsOf rest true) cur e l).trace = L.trace ∧
     (runIn t O seed (withAcs lead acsOf rest true) cur e l).trace <+:
@@ -169,15 +312,21 @@ theorem acs_and_mask_share_first_draws {X : Type} (t : Table) (O : Ops σ Seed R
 /-- and the whole seeded ACS call is history independent like the mask call (it is a call) -/
 theorem acs_call_history_independent {X : Type} (t : Table) (ht : tableOk t = true) (O : Ops σ Seed Req Val)
     (lead : Prog Req Val X) (acsOf : X → Out) (rest : X → Prog Req Val Out)
-    (hl : SitesIn t.length lead) (hr : ∀ x, SitesIn t.length (rest x)) (b : Bool)
+    (hl : SitesIn t.length lead) (hr : ∀ x, SitesIn t.length (rest x))
+    (hll : NoLibc lead) (hlr : ∀ x, LibcOk false (rest x)) (b : Bool)
     (s : Seed) (i i' : Nat) (st st' : State σ Val) :
     (call t O (withAcs lead acsOf rest b) (some s) i st).1 = (call t O (withAcs lead acsOf rest b) (some s) i' st').1 := by
   apply seeded_call_history_independent t ht
-  unfold withAcs
-  refine sitesIn_bind hl fun x => ?_
-  cases b
-  · exact hr x
-  · exact .ret _
+  · unfold withAcs
+    refine sitesIn_bind hl fun x => ?_
+    cases b
+    · exact hr x
+    · exact .ret _
+  · unfold withAcs
+    refine libcOk_bind hll fun x => ?_
+    cases b
+    · exact hlr x
+    · exact .ret _
 
 /-! ### what goes wrong when the premise fails (concrete counter-models, by evaluation) -/
 
@@ -187,8 +336,43 @@ def toyOps : Ops Nat Nat Unit Nat where
   draw := fun s _ => (s, s + 1)
   intz := fun s => s
   entropy := fun n => 77 + n
+  srandTo := fun v => 500000 + v
 
-def toyState (np : Nat) : State Nat Nat := ⟨fun _ => 5, np, 0, 0, none, 0⟩
+def toyState (np : Nat) : State Nat Nat := ⟨fun _ => 5, np, 0, 0, 9, 0⟩
+
+/-- same, with libc in state `l` -/
+def toyStateL (l : Nat) : State Nat Nat := ⟨fun _ => 5, 10, 0, 0, l, 0⟩
+
+/-- a kernel generator: one private draw `v` (the kernel's integer seed), one kernel run, result returned -/
+def oneKernel (srandFirst : Bool) : Prog Unit Nat Nat :=
+  .draw 0 () fun v => kernelProg srandFirst v () fun x => .ret x
+
+/-- **libc is not restored**: after a seeded kernel call libc is where the kernel's `rand()` loop left it -/
+theorem libc_not_restored :
+    (call [⟨.priv, true⟩] toyOps (oneKernel true) (some 3) 0 (toyStateL 9)).2.libc = 504001 ∧
+    (call [⟨.priv, true⟩] toyOps (oneKernel true) (some 3) 0 (toyStateL 9)).2.libc ≠ (toyStateL 9).libc := by decide
+
+/-- … but what it leaves there, and what it returns, do not depend on where libc was -/
+example :
+    (call [⟨.priv, true⟩] toyOps (oneKernel true) (some 3) 0 (toyStateL 9)).1 =
+    (call [⟨.priv, true⟩] toyOps (oneKernel true) (some 3) 0 (toyStateL 123)).1 ∧
+    (call [⟨.priv, true⟩] toyOps (oneKernel true) (some 3) 0 (toyStateL 9)).2.libc =
+    (call [⟨.priv, true⟩] toyOps (oneKernel true) (some 3) 0 (toyStateL 123)).2.libc := by decide
+
+/-- a kernel whose `rand()` loop starts before `srand(seed)` returns something that depends on whoever used libc
+before (another kernel, another generator, another library) -/
+theorem rand_before_srand_violates :
+    (call [⟨.priv, true⟩] toyOps (oneKernel false) (some 3) 0 (toyStateL 9)).1 ≠
+    (call [⟨.priv, true⟩] toyOps (oneKernel false) (some 3) 0 (toyStateL 123)).1 := by decide
+
+/-- and such a body does not keep the discipline: `LibcOk false` fails at the leading `crand` -/
+theorem rand_before_srand_not_libcOk : ¬ LibcOk false (oneKernel false) := by
+  intro h
+  cases h with
+  | draw hk =>
+    have := hk 0
+    simp only [kernelProg, Bool.false_eq_true, if_false] at this
+    cases this
 
 /-- one draw, returned -/
 def oneDraw : Prog Unit Nat Nat := .draw 0 () fun v => .ret v
@@ -211,6 +395,13 @@ theorem unscoped_draw_violates :
 
 example : tableOk [⟨.priv, true⟩, ⟨.fresh, true⟩] = true := by decide
 example : SitesIn 1 oneDraw := .draw (by decide) fun _ => .ret _
+example : LibcOk false oneDraw := .draw fun _ => .ret _
+example : NoLibc oneDraw := .draw fun _ => .ret _
+example : SitesIn 1 (oneKernel true) := .draw (by decide) fun _ => .srand (.crand fun _ => .ret _)
+example : LibcOk false (oneKernel true) := .draw fun _ => .srand (.crand fun _ => .ret _)
+example : pyxSrandFirst ["srand:seed", "rand", "rand"] = true := by decide
+example : pyxSrandFirst ["rand", "srand:seed"] = false := by decide
+example : pyxSrandFirst ["srand:seed", "rand", "srand:other"] = false := by decide
 /-- the seeded draw really comes from the seeded private stream (4000 = seedTo 3) -/
 example : (call [⟨.priv, true⟩] toyOps oneDraw (some 3) 0 (toyState 10)).1 = 4000 := by decide
 example : (call [⟨.priv, true⟩] toyOps oneDraw (some 3) 7 (toyState 99)).1 = 4000 := by decide
@@ -222,6 +413,18 @@ example : (call [⟨.priv, true⟩] toyOps oneDraw none 0 (toyState 10)).1 = 780
 example :
     observe [⟨.priv, true⟩] toyOps (fun (_ : Unit) (_ : Unit) => oneDraw) (toyState 10)
       ([.call () () 0 none, .newInst 1, .drawGlobal 0 (), .seedGlobal 1 9, .call () () 1 (some 8),
-        .drawGlobal 2 ()] ++ [.call () () 0 (some 3)]) = some 4000 := by decide
+        .drawGlobal 2 (), .clone 1 4, .drawGlobal 3 (), .seedGlobal 3 2] ++ [.call () () 4 (some 3)]) = some 4000 := by decide
+/-- a kernel generator observed after another kernel call and libc perturbations -/
+example :
+    observe [⟨.priv, true⟩] toyOps (fun (_ : Unit) (_ : Unit) => oneKernel true) (toyStateL 9)
+      [.call () () 0 (some 8), .drawGlobal 3 (), .call () () 1 (some 3)] =
+    observe [⟨.priv, true⟩] toyOps (fun (_ : Unit) (_ : Unit) => oneKernel true) (toyStateL 77)
+      [.call () () 0 (some 3)] := by decide
+/-- deleting the calls of a history leaves the global streams as they are -/
+example :
+    globals (run [⟨.priv, true⟩] toyOps (fun (_ : Unit) (_ : Unit) => oneDraw) (toyState 10)
+      [.call () () 0 none, .drawGlobal 0 (), .call () () 1 (some 8), .seedGlobal 1 9]).1 =
+    globals (run [⟨.priv, true⟩] toyOps (fun (_ : Unit) (_ : Unit) => oneDraw) (toyState 10)
+      [.drawGlobal 0 (), .seedGlobal 1 9]).1 := by decide
 
 end DirectVerif.C05
